@@ -224,6 +224,9 @@ pub fn check(sc: &Scenario, env: &mut Env) -> Result<Outcome, HarnessError> {
             out.nontrivial = true;
         }
         walker_probes(w, &mut out);
+        if sc.tree.iter().any(|n| n.path.chars().any(|c| (0xF880..=0xF8FF).contains(&(c as u32)))) {
+            out.probe("names:not-valid-utf8");
+        }
         if sc.lazy {
             out.probe("walkers:constructed-lazily");
         }
